@@ -3,6 +3,7 @@ package openflow13
 import (
 	"encoding/binary"
 	"errors"
+	"fmt"
 
 	"github.com/contiv/libOpenflow/util"
 )
@@ -66,7 +67,15 @@ func (a *ActionHeader) UnmarshalBinary(data []byte) error {
 
 // Decode Action types.
 func DecodeAction(data []byte) (Action, error) {
+	if len(data) < 4 {
+		return nil, errors.New("the []byte is too short to decode an action header")
+	}
 	t := binary.BigEndian.Uint16(data[:2])
+	// An action is at least 8 bytes long; a shorter declared length would keep
+	// the action-list loops of instructions, buckets and packet-out from advancing.
+	if binary.BigEndian.Uint16(data[2:4]) < 8 {
+		return nil, errors.New("the action length is below the minimum of 8 bytes")
+	}
 	var a Action
 	switch t {
 	case ActionType_Output:
@@ -111,6 +120,9 @@ func DecodeAction(data []byte) (Action, error) {
 		if v == NxExperimenterID {
 			a = DecodeNxAction(data)
 		}
+	}
+	if a == nil {
+		return nil, fmt.Errorf("unsupported action type: %d", t)
 	}
 	err := a.UnmarshalBinary(data)
 	if err != nil {
